@@ -369,6 +369,23 @@ func init() {
 		Post: heldPost,
 	})
 	eng.Register(&eng.Scenario{
+		Name: "cc-setvalue-race", Props: []string{"C15"}, ObsNames: stdObs,
+		Doc:   "CContainer holding 1: S1 = SetValue(1) (equal to the current content)  ||  S2 = SetValue(2)  ||  W = WaitValueChange(old=2)  ||  G = GetValue x2: the cell ends at 1 or 2; if it ends at 1 the waiter (condition: differs from 2) may not stay parked; Get/Set stay linearizable",
+		Quick: eng.Bounds{PB: 3}, Thorough: eng.Bounds{PB: 4},
+		Body: func() {
+			c := ccontainer.NewCContainer[int](1)
+			vsched.Observe(oVal, 1, 0, 0)
+			T("S1", func() { vsched.Observe(oOp, 1, 0, 0); c.SetValue(1) })
+			T("S2", func() { vsched.Observe(oOp, 2, 0, 0); c.SetValue(2) })
+			T("W", func() { ccWait(c, 1, wChange, 2, nil, bg, nil) })
+			finalWaiters(c, nil, map[int]int{wChange: 2})
+			if v := c.GetValue(); v != 1 && v != 2 {
+				fail("C15.lost-update", "final value %d after SetValue(1) and SetValue(2)", v)
+			}
+		},
+		Post: heldPost,
+	})
+	eng.Register(&eng.Scenario{
 		Name: "cc-errch", Props: []string{"C15"}, ObsNames: stdObs,
 		Doc:   "CContainer: WaitValue with a cancellable context and an error channel; a sender delivers {error, nil, close} (choice), a canceller cancels, a writer may set the value; the returned error must come from a source that fired",
 		Quick: eng.Bounds{PB: 2}, Thorough: eng.Bounds{PB: 3},
